@@ -129,7 +129,7 @@ Definition sys_read (o : obj) (want : Z) : obj * sysres :=
     (mkobj (o_kind o) (o_closed o) (o_evR o) (o_evW o) (o_rd o) (o_wr o) (o_reg o) (e_rq o - n) (e_reof o) (e_rst o) (e_wdead o) (e_wroom o), SGot n)
   else if e_rst o then
     (* the pending socket error is reported once; afterwards the socket reads as end-of-stream *)
-    (mkobj (o_kind o) (o_closed o) (o_evR o) (o_evW o) (o_rd o) (o_wr o) (o_reg o) (e_rq o) true false (e_wdead o) (e_wroom o), SFail xReset)
+    (mkobj (o_kind o) (o_closed o) (o_evR o) (o_evW o) (o_rd o) (o_wr o) (o_reg o) (e_rq o) true false true (e_wroom o), SFail xReset)
   else match o_kind o with
        | KReg => (o, SEof)
        | _ => if e_reof o then (o, SEof) else (o, SWouldBlock)
@@ -137,7 +137,10 @@ Definition sys_read (o : obj) (want : Z) : obj * sysres :=
 
 Definition sys_write (o : obj) (want : Z) : obj * sysres :=
   if o_closed o || (match o_kind o with KPipeR | KDead => true | _ => false end) then (o, SFail xEBADF)
-  else if e_rst o then (o, SFail xReset)
+  else if e_rst o then
+    (* the pending socket error is reported once, to whichever call meets it first; afterwards reads see end-of-stream and
+       writes a broken pipe *)
+    (mkobj (o_kind o) (o_closed o) (o_evR o) (o_evW o) (o_rd o) (o_wr o) (o_reg o) (e_rq o) true false true (e_wroom o), SFail xReset)
   else if e_wdead o then (o, SFail xEPIPE)
   else if e_wroom o <? 0 then (o, SGot want)
   else if e_wroom o =? 0 then (o, SWouldBlock)      (* the send buffer is full *)
